@@ -681,6 +681,13 @@ func (e *Engine) apply(op Op) Result {
 			return Result{Err: ErrKind(err)}
 		}
 		if err := e.Tx.Flush(); err != nil {
+			// a Flush that fails (no overwrite page left) has flushed some of the dirty pages and not others:
+			// none of them is written to again in this transaction
+			for id, b := range e.txW {
+				if b != nil {
+					e.txFlushed[id] = true
+				}
+			}
 			return Result{Err: ErrKind(err)}
 		}
 		for id, b := range e.txW {
